@@ -66,7 +66,8 @@ func redecodeFP(err error) string {
 	return ""
 }
 
-func fixedPoint[T any](t *testing.T, k codec[T], b []byte) {
+// fixedPoint applies the oracle and reports whether decode(b) succeeded (the case was judged).
+func fixedPoint[T any](t stats.TB, k codec[T], b []byte) (judged bool) {
 	fail := func(y T, err error, generic, format string, a ...any) {
 		fp := ""
 		if k.fp != nil {
@@ -93,6 +94,7 @@ func fixedPoint[T any](t *testing.T, k codec[T], b []byte) {
 			return
 		}
 	}
+	judged = true
 	b2, err, p := safely(func() ([]byte, error) { return k.enc(y) })
 	if p {
 		return
@@ -124,6 +126,7 @@ func fixedPoint[T any](t *testing.T, k codec[T], b []byte) {
 			fail(y, nil, "hash", "hash differs between decode(b) and decode(encode(decode(b))): %s vs %s", h1, h2)
 		}
 	}
+	return
 }
 
 func decTxProto(b []byte) (*types.Transaction, error) {
@@ -146,13 +149,21 @@ func encTxProto(y *types.Transaction) ([]byte, error) {
 	return proto.Marshal(p)
 }
 
+var codecTxProto = codec[*types.Transaction]{target: "txproto", dec: decTxProto, enc: encTxProto, hash: func(y *types.Transaction) string { return y.Hash().Hex() },
+	fp: func(y *types.Transaction, err error) string {
+		if err != nil && y.Type() == types.QiTxType && strings.Contains(err.Error(), "invalid secp256k1 public key") {
+			// TxIn.ProtoDecode passes a 65-byte key through unchecked, TxIn.ProtoEncode (and with it Hash()) needs a curve point
+			return fpFuzzQiBadPubKey
+		}
+		return ""
+	}}
+
 func FuzzC14_TxProto(f *testing.F) {
 	seeds(func(t *rapid.T) []byte {
 		b, _ := encTxProto(gen.Tx(t, fuzzLoc, -1, nil))
 		return b
 	}, func(b []byte) { f.Add(b) })
-	k := codec[*types.Transaction]{target: "txproto", dec: decTxProto, enc: encTxProto, hash: func(y *types.Transaction) string { return y.Hash().Hex() }}
-	f.Fuzz(func(t *testing.T, b []byte) { fixedPoint(t, k, b) })
+	f.Fuzz(func(t *testing.T, b []byte) { fixedPoint(t, codecTxProto, b) })
 }
 
 func FuzzC14_TxRLP(f *testing.F) {
@@ -238,6 +249,27 @@ func FuzzC14_WorkObject(f *testing.F) {
 	f.Fuzz(func(t *testing.T, v uint8, b []byte) { fixedPoint(t, ks[int(v)%len(ks)], b) })
 }
 
+var codecHeader = codec[*types.Header]{target: "header",
+	dec: func(b []byte) (*types.Header, error) { return decodeHeaderBytes(b, fuzzLoc) },
+	enc: func(y *types.Header) ([]byte, error) {
+		p, err := y.ProtoEncode()
+		if err != nil {
+			return nil, err
+		}
+		return proto.Marshal(p)
+	},
+	hash: func(y *types.Header) string { return y.Hash().Hex() }}
+var codecWoh = codec[*types.WorkObjectHeader]{target: "woheader",
+	dec: func(b []byte) (*types.WorkObjectHeader, error) { return decodeWoh(b, fuzzLoc) },
+	enc: func(y *types.WorkObjectHeader) ([]byte, error) {
+		p, err := y.ProtoEncode()
+		if err != nil {
+			return nil, err
+		}
+		return proto.Marshal(p)
+	},
+	hash: func(y *types.WorkObjectHeader) string { return y.Hash().Hex() + y.SealHash().Hex() }}
+
 func FuzzC14_Header(f *testing.F) {
 	seeds(func(t *rapid.T) []byte {
 		if rapid.Bool().Draw(t, "woh") {
@@ -249,31 +281,11 @@ func FuzzC14_Header(f *testing.F) {
 		b, _ := proto.Marshal(p)
 		return append([]byte{0}, b...)
 	}, func(b []byte) { f.Add(b[0], b[1:]) })
-	kh := codec[*types.Header]{target: "header",
-		dec: func(b []byte) (*types.Header, error) { return decodeHeaderBytes(b, fuzzLoc) },
-		enc: func(y *types.Header) ([]byte, error) {
-			p, err := y.ProtoEncode()
-			if err != nil {
-				return nil, err
-			}
-			return proto.Marshal(p)
-		},
-		hash: func(y *types.Header) string { return y.Hash().Hex() }}
-	kw := codec[*types.WorkObjectHeader]{target: "woheader",
-		dec: func(b []byte) (*types.WorkObjectHeader, error) { return decodeWoh(b, fuzzLoc) },
-		enc: func(y *types.WorkObjectHeader) ([]byte, error) {
-			p, err := y.ProtoEncode()
-			if err != nil {
-				return nil, err
-			}
-			return proto.Marshal(p)
-		},
-		hash: func(y *types.WorkObjectHeader) string { return y.Hash().Hex() + y.SealHash().Hex() }}
 	f.Fuzz(func(t *testing.T, kind uint8, b []byte) {
 		if kind%2 == 0 {
-			fixedPoint(t, kh, b)
+			fixedPoint(t, codecHeader, b)
 		} else {
-			fixedPoint(t, kw, b)
+			fixedPoint(t, codecWoh, b)
 		}
 	})
 }
@@ -286,6 +298,52 @@ type p2pResp struct {
 	data interface{}
 }
 
+var errSkip = errors.New("not a response with a payload")
+var codecQuaiMessage = codec[*p2pResp]{target: "quaimessage",
+	dec: func(b []byte) (*p2pResp, error) {
+		msg, err := pb.DecodeQuaiMessage(b)
+		if err != nil {
+			return nil, err
+		}
+		if req := msg.GetRequest(); req != nil {
+			pb.DecodeQuaiRequest(req) // must return; nothing to re-encode without the caller's types
+			return nil, errSkip
+		}
+		resp := msg.GetResponse()
+		if resp == nil {
+			return nil, errSkip
+		}
+		id, data, err := pb.DecodeQuaiResponse(resp)
+		if err != nil {
+			return nil, err
+		}
+		r := &p2pResp{id: id, data: data}
+		r.loc.ProtoDecode(resp.Location)
+		switch d := data.(type) {
+		case *types.WorkObjectBlockView:
+			r.typ = &types.WorkObjectBlockView{}
+		case *types.WorkObjectHeaderView:
+			r.typ = &types.WorkObjectHeaderView{}
+		case []*types.WorkObjectBlockView:
+			if len(d) == 0 {
+				return nil, errSkip // re-encodes as an empty list, which decodes as EmptyResponse by design
+			}
+			r.typ = []*types.WorkObjectBlockView{}
+		case common.Hash:
+			r.typ = &common.Hash{}
+		default:
+			return nil, errSkip
+		}
+		return r, nil
+	},
+	enc: func(r *p2pResp) ([]byte, error) { return pb.EncodeQuaiResponse(r.id, r.loc, r.typ, r.data) },
+	fp: func(r *p2pResp, err error) string {
+		if err != nil && strings.Contains(err.Error(), "header to be proto encoded is nil") {
+			return "C14/fuzz/headerless-body-not-reencodable"
+		}
+		return ""
+	}}
+
 func FuzzC14_QuaiMessage(f *testing.F) {
 	seeds(func(t *rapid.T) []byte {
 		if rapid.Bool().Draw(t, "req") {
@@ -297,53 +355,58 @@ func FuzzC14_QuaiMessage(f *testing.F) {
 		b, _ := pb.EncodeQuaiResponse(r.ID, r.Loc, r.RespType, r.Data)
 		return b
 	}, func(b []byte) { f.Add(b) })
-	skip := errors.New("not a response with a payload")
-	k := codec[*p2pResp]{target: "quaimessage",
-		dec: func(b []byte) (*p2pResp, error) {
-			msg, err := pb.DecodeQuaiMessage(b)
-			if err != nil {
-				return nil, err
-			}
-			if req := msg.GetRequest(); req != nil {
-				pb.DecodeQuaiRequest(req) // must return; nothing to re-encode without the caller's types
-				return nil, skip
-			}
-			resp := msg.GetResponse()
-			if resp == nil {
-				return nil, skip
-			}
-			id, data, err := pb.DecodeQuaiResponse(resp)
-			if err != nil {
-				return nil, err
-			}
-			r := &p2pResp{id: id, data: data}
-			r.loc.ProtoDecode(resp.Location)
-			switch d := data.(type) {
-			case *types.WorkObjectBlockView:
-				r.typ = &types.WorkObjectBlockView{}
-			case *types.WorkObjectHeaderView:
-				r.typ = &types.WorkObjectHeaderView{}
-			case []*types.WorkObjectBlockView:
-				if len(d) == 0 {
-					return nil, skip // re-encodes as an empty list, which decodes as EmptyResponse by design
-				}
-				r.typ = []*types.WorkObjectBlockView{}
-			case common.Hash:
-				r.typ = &common.Hash{}
-			default:
-				return nil, skip
-			}
-			return r, nil
-		},
-		enc: func(r *p2pResp) ([]byte, error) { return pb.EncodeQuaiResponse(r.id, r.loc, r.typ, r.data) },
-		fp: func(r *p2pResp, err error) string {
-			if err != nil && strings.Contains(err.Error(), "header to be proto encoded is nil") {
-				return "C14/fuzz/headerless-body-not-reencodable"
-			}
-			return ""
-		}}
-	f.Fuzz(func(t *testing.T, b []byte) { fixedPoint(t, k, b) })
+	f.Fuzz(func(t *testing.T, b []byte) { fixedPoint(t, codecQuaiMessage, b) })
 }
+
+var codecReceipts = codec[types.Receipts]{target: "receipts",
+	dec: func(b []byte) (types.Receipts, error) {
+		p := new(types.ProtoReceiptsForStorage)
+		if err := proto.Unmarshal(b, p); err != nil {
+			return nil, err
+		}
+		var rs types.ReceiptsForStorage
+		if err := rs.ProtoDecode(p, fuzzLoc); err != nil {
+			return nil, err
+		}
+		out := make(types.Receipts, len(rs))
+		for i := range rs {
+			out[i] = (*types.Receipt)(rs[i])
+		}
+		return out, nil
+	},
+	enc: func(rs types.Receipts) ([]byte, error) { return rs.Bytes(logger), nil }}
+var codecPendingEtxs = codec[*types.PendingEtxs]{target: "pendingetxs",
+	dec: func(b []byte) (*types.PendingEtxs, error) {
+		p := new(types.ProtoPendingEtxs)
+		if err := proto.Unmarshal(b, p); err != nil {
+			return nil, err
+		}
+		y := new(types.PendingEtxs)
+		return y, y.ProtoDecode(p, fuzzLoc)
+	},
+	enc: func(y *types.PendingEtxs) ([]byte, error) {
+		p, err := y.ProtoEncode()
+		if err != nil {
+			return nil, err
+		}
+		return proto.Marshal(p)
+	},
+	hash: func(y *types.PendingEtxs) string { return y.Header.Hash().Hex() }}
+var codecTermini = codec[*types.Termini]{target: "termini",
+	dec: func(b []byte) (*types.Termini, error) {
+		p := new(types.ProtoTermini)
+		if err := proto.Unmarshal(b, p); err != nil {
+			return nil, err
+		}
+		y := new(types.Termini)
+		return y, y.ProtoDecode(p)
+	},
+	enc:   func(y *types.Termini) ([]byte, error) { return proto.Marshal(y.ProtoEncode()) },
+	valid: func(y *types.Termini) bool { return y.IsValid() }}
+var codecTemplate = codec[*types.AuxTemplate]{target: "auxtemplate",
+	dec:  decodeTemplateBytes,
+	enc:  func(y *types.AuxTemplate) ([]byte, error) { return proto.Marshal(y.ProtoEncode()) },
+	hash: func(y *types.AuxTemplate) string { h := y.Hash(); return hx(h[:]) }}
 
 func FuzzC14_Stored(f *testing.F) {
 	seeds(func(t *rapid.T) []byte {
@@ -363,65 +426,16 @@ func FuzzC14_Stored(f *testing.F) {
 			return append([]byte{3}, b...)
 		}
 	}, func(b []byte) { f.Add(b[0], b[1:]) })
-	kr := codec[types.Receipts]{target: "receipts",
-		dec: func(b []byte) (types.Receipts, error) {
-			p := new(types.ProtoReceiptsForStorage)
-			if err := proto.Unmarshal(b, p); err != nil {
-				return nil, err
-			}
-			var rs types.ReceiptsForStorage
-			if err := rs.ProtoDecode(p, fuzzLoc); err != nil {
-				return nil, err
-			}
-			out := make(types.Receipts, len(rs))
-			for i := range rs {
-				out[i] = (*types.Receipt)(rs[i])
-			}
-			return out, nil
-		},
-		enc: func(rs types.Receipts) ([]byte, error) { return rs.Bytes(logger), nil }}
-	kp := codec[*types.PendingEtxs]{target: "pendingetxs",
-		dec: func(b []byte) (*types.PendingEtxs, error) {
-			p := new(types.ProtoPendingEtxs)
-			if err := proto.Unmarshal(b, p); err != nil {
-				return nil, err
-			}
-			y := new(types.PendingEtxs)
-			return y, y.ProtoDecode(p, fuzzLoc)
-		},
-		enc: func(y *types.PendingEtxs) ([]byte, error) {
-			p, err := y.ProtoEncode()
-			if err != nil {
-				return nil, err
-			}
-			return proto.Marshal(p)
-		},
-		hash: func(y *types.PendingEtxs) string { return y.Header.Hash().Hex() }}
-	kt := codec[*types.Termini]{target: "termini",
-		dec: func(b []byte) (*types.Termini, error) {
-			p := new(types.ProtoTermini)
-			if err := proto.Unmarshal(b, p); err != nil {
-				return nil, err
-			}
-			y := new(types.Termini)
-			return y, y.ProtoDecode(p)
-		},
-		enc:   func(y *types.Termini) ([]byte, error) { return proto.Marshal(y.ProtoEncode()) },
-		valid: func(y *types.Termini) bool { return y.IsValid() }}
-	ka := codec[*types.AuxTemplate]{target: "auxtemplate",
-		dec:  decodeTemplateBytes,
-		enc:  func(y *types.AuxTemplate) ([]byte, error) { return proto.Marshal(y.ProtoEncode()) },
-		hash: func(y *types.AuxTemplate) string { h := y.Hash(); return hx(h[:]) }}
 	f.Fuzz(func(t *testing.T, kind uint8, b []byte) {
 		switch kind % 4 {
 		case 0:
-			fixedPoint(t, kr, b)
+			fixedPoint(t, codecReceipts, b)
 		case 1:
-			fixedPoint(t, kp, b)
+			fixedPoint(t, codecPendingEtxs, b)
 		case 2:
-			fixedPoint(t, kt, b)
+			fixedPoint(t, codecTermini, b)
 		default:
-			fixedPoint(t, ka, b)
+			fixedPoint(t, codecTemplate, b)
 		}
 	})
 }
